@@ -157,7 +157,24 @@ def run(ctx):
                                            "detail": od})
         if len(samples) < 2 and views[0]["expect"]["rows"] and not views[0]["expect"]["err"]:
             samples.append({"sql": c["sql"], "db": views[0]["db"], "expect": views[0]["expect"], "configs": [k["id"] for k in c["cfg_objs"]]})
-    cov = {"evaluations": hsum["executions"], "distinct_nontrivial": len(nontrivial),
+    # binding demonstration on every run: an accepted run with one row dropped must be rejected by the oracle
+    tried = detected = 0
+    for c in cases:
+        r = res[c["id"]]
+        views = semcases.views(c)
+        if "runs" not in r or c["mode"] not in ("bag", "ordered") or views[0]["expect"]["err"]:
+            continue
+        for run_ in r["runs"]:
+            if run_.get("db") == 0 and run_["cfg"] != 0 and run_["r1"].get("rows"):
+                tried += 1
+                s_, _ = classify({"rows": run_["r1"]["rows"][1:]}, views[0])
+                detected += 1 if s_ == "diff" else 0
+                break
+        if tried >= 25:
+            break
+    if not ctx.replay and (tried == 0 or tried != detected):
+        raise ToolError(f"C02 selftest: {detected} of {tried} corrupted results rejected")
+    cov = {"selftest": {"corrupted_observations": tried, "rejected_by_oracle": detected}, "evaluations": hsum["executions"], "distinct_nontrivial": len(nontrivial),
            "rule": "evaluation = one execution of a case's SQL under one configuration on one database (first run / immediate second run / one of 3 "
                    "concurrent copies); non-trivial = distinct <query, configuration> whose result is non-empty and equals the non-error reference result",
            "samples": samples, "cases": len(cases), "status_counts": dict(sorted(st.items()))}
